@@ -465,3 +465,24 @@ Qed.
 
 Lemma reachable_inv st : reachable st -> Inv st.
 Proof. induction 1; [apply init_inv|eapply step_inv; eauto]. Qed.
+
+(* ------------------------------------------------------------------ a refused definition leaves no trace *)
+Lemma propagate_tags_err t fv : forall ps s tags s' k,
+  propagate_tags t fv s ps tags = (s', Some k) -> k = E_UNAVAILABLE.
+Proof.
+  induction ps as [|[p v] ps IH]; intros s tags s' k H; simpl in H; [discriminate|].
+  destruct (get_field t p fv); [eapply IH; eauto|now inversion H].
+Qed.
+
+Lemma add_field_refused_no_effect orig st fv i len start tags st' :
+  add_field_gen orig st fv i len start tags = (st', Some E_VALUE) -> st' = st.
+Proof.
+  unfold add_field_gen. intros H.
+  destruct (match len with Some l => l <=? 0 | None => false end); [now inversion H|].
+  destruct (match start with Some s => range_bad orig (s_len st) s len | None => false end); [now inversion H|].
+  match type of H with (if ?c then _ else _) = _ => destruct c end; [now inversion H|].
+  destruct (tree_add (s_tree st) i (length (s_store st)) fv) as [t'| | |]; try (now inversion H).
+  destruct (get_field_requirements t' i fv); [|inversion H].
+  destruct (propagate_tags _ _ _ _ _) as [s2 [k|]] eqn:Ep; [|inversion H].
+  apply propagate_tags_err in Ep. subst k. inversion H.
+Qed.
